@@ -172,6 +172,8 @@ func runC07(r *engine.Run) {
 	cloneLinear(r)
 	whoLayers(r)
 	cloneDeep(r)
+	r.Rule("DOM-sethash", "BlockCache.SetBlockHash stores its argument into blockHash on every path to a return: the commit files the block's entries and its link under that hash, and descendants name it as their previous block - a setter that keeps an earlier hash makes the committed writes of the block unreachable from its descendants")
+	domSetHash(r, "DOM-sethash")
 	domWriteKept(r, "DOM-writekept")
 	whoReadOnly(r, "WHO-readonly")
 	domCommitReached(r, "DOM-commit")
